@@ -165,7 +165,8 @@ func genC12(ctx *fw.Ctx) []fw.Case {
 	// rest is a PRNG sample
 	var always, rest []corpus.Source
 	for _, b := range base {
-		if strings.HasPrefix(b.ID, "atom/module/") || strings.HasPrefix(b.ID, "atom/global/") || strings.HasPrefix(b.ID, "atom/md/tuples") || strings.HasPrefix(b.ID, "atom/types/") || strings.HasPrefix(b.ID, "atom/md/di-compileunit") || strings.HasPrefix(b.ID, "atom/md/named-") || strings.HasPrefix(b.ID, "atom/func/attrgroup") {
+		if strings.HasPrefix(b.ID, "atom/module/") || strings.HasPrefix(b.ID, "atom/global/") || strings.HasPrefix(b.ID, "atom/md/tuples") || strings.HasPrefix(b.ID, "atom/types/") || strings.HasPrefix(b.ID, "atom/md/di-compileunit") || strings.HasPrefix(b.ID, "atom/md/named-") || strings.HasPrefix(b.ID, "atom/func/attrgroup") ||
+			strings.HasPrefix(b.ID, "atom/inst/gep") || strings.HasPrefix(b.ID, "atom/const/blockaddress") {
 			always = append(always, b)
 		} else {
 			rest = append(rest, b)
